@@ -81,6 +81,9 @@ structure Srv where
   delivered : Nat := 0       -- messages that reached a handler
   pendingTM : List TM := []
   treeLock : Nat := 0        -- `pendingTreeLock` held
+  /-- roster id of the tree stored under each id: a peer may send tree t with any roster that fits its
+  description, and the deprecated tree message looks rosters up through the listed instances' trees -/
+  treeRo : TRef → RoRef := fun t => match t with | .K => .roK | .R => .roR | .U => .roX | .Z => .roZ
   replies : Nat := 0         -- tree / roster replies sent to the peer
 
 def treeOf : Tok → TRef
@@ -123,11 +126,11 @@ def deliver (s : Srv) (to : Tok) (frm : Frm) (m3 : Bool) : Out × Srv :=
 
 /-- `RegisterTree` of a received tree: store it and flush what was parked for it (the harness
 parks only `fresh t` messages from a member) -/
-def storeAndFlush (s : Srv) (t : TRef) : Srv :=
+def storeAndFlush (s : Srv) (t : TRef) (r : RoRef) : Srv :=
   let l := s.parked t
   let h := (l.filter (fun x => x.2)).length                          -- handed to the (new) instance
   let d := (l.filter (fun x => x.2 && x.1 == .member)).length        -- accepted by the sender check
-  { s with slot := upd s.slot t .present, parked := upd s.parked t [],
+  { s with slot := upd s.slot t .present, parked := upd s.parked t [], treeRo := upd s.treeRo t r,
            fresh := if l.isEmpty then s.fresh else upd s.fresh t true,
            handed := s.handed + h, delivered := s.delivered + d }
 
@@ -141,12 +144,13 @@ def sendTree (s : Srv) (tm : Option TM) (ro : Option Ro) : Out × Srv :=
     | none => (.ignored, s)
     | some ro =>
       if s.slot tm.id ≠ .requested then (.ignored, s)
-      else if makeTree tm ro then (.ok, storeAndFlush s tm.id)
+      else if makeTree tm ro then (.ok, storeAndFlush s tm.id ro.id)
       else (.ignored, s)
 
 /-- is a roster with that id known through a listed instance (`handleSendTreeMarshal`'s loop)? -/
 def instanceRoster (s : Srv) (r : RoRef) : Bool :=
-  (r = .roK && (s.other || s.run || s.doneLive || s.fresh .K)) || (r = .roR && s.fresh .R) || (r = .roX && s.fresh .U)
+  (r = s.treeRo .K && (s.other || s.run || s.doneLive || s.fresh .K)) ||
+  (r = s.treeRo .R && s.fresh .R) || (r = s.treeRo .U && s.fresh .U) || (r = s.treeRo .Z && s.fresh .Z)
 
 /-- one envelope on the code as it is now -/
 def process (s : Srv) : Env → Out × Srv
@@ -177,7 +181,7 @@ def process (s : Srv) : Env → Out × Srv
       let todo := s.pendingTM.filter (fun tm => tm.ro = ro.id)
       let s' := todo.foldl (fun acc tm =>
         if acc.slot tm.id = .present then acc
-        else if makeTree tm ro then storeAndFlush acc tm.id else acc) s
+        else if makeTree tm ro then storeAndFlush acc tm.id ro.id else acc) s
       -- the used descriptions are dropped (`delete(o.pendingTreeMarshal, el.ID)`)
       (.ok, { s' with treeLock := 0, pendingTM := s'.pendingTM.filter (fun tm => tm.ro ≠ ro.id) })
   | .config _ => (.ok, s)
